@@ -69,8 +69,11 @@ class Ctx:
         self.extra = {}
         self.t0 = time.time()
         self._traces = {}
-        from . import evalr
+        from . import evalr, terms
         del evalr.ALL_TRACES[:]
+        # per-run caches (a pool worker analyses many variants of the tree one after the other)
+        terms._KEY.clear()
+        evalr._LOCALS.clear()
         self._sites = set()
         self.notes = []
         self.anchor_errors = []
